@@ -2,7 +2,9 @@
    fixes/C05-map-number-keys.patch): the scope tree (named children are re-used by
    NewChild), per scope storage, getScopeForVariable, setValue / SetLocalValue / getValue
    on dotted access paths over a heap of containers (Go maps and slices are references).
-   A Go panic is the explicit outcome [Panic site]; no proofs in this file.
+   A Go panic is the explicit outcome [Panic site] (after the repairs of C06 no reachable one is
+   left in this code: only a nil scope / dangling reference, which the API cannot produce); no
+   proofs in this file.
 
    Numbers: float64 values that are integral are modelled by Z (the generators only
    produce small integers); strings are byte lists. *)
@@ -202,9 +204,9 @@ Definition list_index (len : nat) (f : bytes) : outcome nat :=
   | None => Err "needs a number index"
   | Some i =>
     let i' := if (i <? 0)%Z then (Z.of_nat len + i)%Z else i in
-    if (i' <? Z.of_nat len)%Z then
-      if (i' <? 0)%Z then Panic "index out of range (negative index beyond the list)"
-      else Ok (Z.to_nat i')
+    (* "index >= 0 && index < len(listContainer)" (since 07794bb: a negative index beyond the
+       start of the list is an out of bounds error, it used to be a Go panic) *)
+    if (0 <=? i')%Z && (i' <? Z.of_nat len)%Z then Ok (Z.to_nat i')
     else Err "out of bounds"
   end.
 
